@@ -3,6 +3,8 @@ open BinNums
 open Datatypes
 open Prelude
 open Engine
+open PyFile
+open Window
 open Driver_base
 
 let opt f = function None -> "-" | Some x -> f x
@@ -27,9 +29,38 @@ let run_engine toks =
   String.concat " " (Stdlib.List.map (fun ((x, y), n) ->
     opt hex_of_z x ^ "," ^ opt hex_of_z y ^ "," ^ opt hex_of_bytes n) d)
 
+(* ---- file-like op histories ------------------------------------------------ *)
+(* ops: r <n> | s <off> <whence> | w <hex> | t *)
+let parse_wops (toks : string list) : wop list =
+  let rec go toks acc =
+    match toks with
+    | [] -> Stdlib.List.rev acc
+    | "r" :: n :: r -> go r (WRead (z_of_hex n) :: acc)
+    | "s" :: o :: wh :: r -> go r (WSeek (z_of_hex o, z_of_hex wh) :: acc)
+    | "w" :: d :: r -> go r (WWrite (bytes_of_hex d) :: acc)
+    | "t" :: r -> go r (WTell :: acc)
+    | t :: _ -> failwith ("file op " ^ t) in
+  go toks []
+
+let show_wres (r : wres) : string =
+  match r with
+  | RBytes b -> hex_of_bytes b
+  | RInt n -> "i:" ^ hex_of_z n
+  | RErr e -> "e:" ^ err_name e
+
+(* window <off> <sz> <basehex> ops...  ->  results... | final base bytes *)
+let run_window toks =
+  match toks with
+  | off :: sz :: base :: ops ->
+    let w0 = { wbase = { fdata = bytes_of_hex base; fpos = Z0 }; wseek = Z0 } in
+    let (rs, w) = win_run (z_of_hex off) (z_of_hex sz) w0 (parse_wops ops) in
+    String.concat " " (Stdlib.List.map show_wres rs) ^ " | " ^ hex_of_bytes w.wbase.fdata
+  | _ -> failwith "window args"
+
 let dispatch (line : string) : string =
   match String.split_on_char ' ' (String.trim line) with
   | "engine" :: toks -> run_engine toks
+  | "window" :: toks -> run_window toks
   | e :: _ -> failwith ("unknown entry " ^ e)
   | [] -> ""
 
